@@ -1,0 +1,64 @@
+//go:build verif
+
+package zygo
+
+import "reflect"
+
+// Read-only accessors for the C19 verification harness (build tag verif).
+
+// VerifLookupSymbol reports the number of an interned name without interning it.
+func (env *Zlisp) VerifLookupSymbol(name string) (int, bool) {
+	n, ok := env.symtable[name]
+	return n, ok
+}
+
+// VerifSymtableCopy returns a copy of the name -> number table.
+func (env *Zlisp) VerifSymtableCopy() map[string]int {
+	m := make(map[string]int, len(env.symtable))
+	for k, v := range env.symtable {
+		m[k] = v
+	}
+	return m
+}
+
+// VerifRevSymtableCopy returns a copy of the number -> name table.
+func (env *Zlisp) VerifRevSymtableCopy() map[int]string {
+	m := make(map[int]string, len(env.revsymtable))
+	for k, v := range env.revsymtable {
+		m[k] = v
+	}
+	return m
+}
+
+// VerifTablesInverse checks on the real tables that symtable and revsymtable
+// are inverse partial bijections; it returns "" or the class of a discrepancy
+// ("size", "fwd", "rev"); callers compare only empty / non-empty.
+func (env *Zlisp) VerifTablesInverse() string {
+	if len(env.symtable) != len(env.revsymtable) {
+		return "size"
+	}
+	for name, num := range env.symtable {
+		if back, ok := env.revsymtable[num]; !ok || back != name {
+			return "fwd"
+		}
+	}
+	for num, name := range env.revsymtable {
+		if back, ok := env.symtable[name]; !ok || back != num {
+			return "rev"
+		}
+	}
+	return ""
+}
+
+// VerifSharesTables reports whether two interpreters use the very same table objects.
+func (env *Zlisp) VerifSharesTables(other *Zlisp) bool {
+	return reflect.ValueOf(env.symtable).Pointer() == reflect.ValueOf(other.symtable).Pointer() &&
+		reflect.ValueOf(env.revsymtable).Pointer() == reflect.ValueOf(other.revsymtable).Pointer()
+}
+
+// VerifSymtableEach calls f for every interned (name, number) pair (Go map order).
+func (env *Zlisp) VerifSymtableEach(f func(name string, num int)) {
+	for k, v := range env.symtable {
+		f(k, v)
+	}
+}
